@@ -1,12 +1,16 @@
 #!/bin/bash
-# usage: tools/matrix.sh [seed dirs...]  - run every seeded change against the quick check of its own property;
-# one line per seed in seeded/MATRIX.txt (caught = the check exits 1 with a VIOLATION line).
+# usage: tools/matrix.sh [--alt] [seed dirs...]  - run every seeded change against the quick check of its own property;
+# one line per seed in seeded/MATRIX.txt (caught = the check exits 1 with a VIOLATION line).  --alt: on the clone
+# (tools/mutant_alt.sh) instead of /repo itself.
 cd /verif
+tool=tools/mutant.sh
+if [ "$1" = "--alt" ]; then tool=tools/mutant_alt.sh; shift; fi
 out=seeded/MATRIX.txt
 [ $# -eq 0 ] && set -- seeded/C*-*/
+: > $out.new
 for d in "$@"; do
   d=${d%/}; id=$(basename $d); prop=${id%-*}
-  res=$(tools/mutant.sh $d/patch.diff $prop 2>&1 | tail -1)
+  res=$($tool $d/patch.diff $prop 2>&1 | tail -1 | sed 's#replay=[^ ]*##g' | cut -c1-90)
   echo "$id $res" | tee -a $out.new
 done
 sort -u $out.new > $out; rm -f $out.new
